@@ -28,6 +28,7 @@ def run(ctx):
              "column; parse errors get the line number in parse(); listing columns are matched "
              "by line number")
     rule_a(ctx, cr)
+    rule_abs_pc(ctx, cr)
     rule_b(ctx, cr)
     rule_c(ctx, cr)
     rule_d(ctx, cr)
@@ -81,6 +82,44 @@ def rule_a(ctx, cr):
               "RETURN/NEXT/FNx/CONT addresses are dropped whenever errors are recomputed",
               "the recompile keeps %s: a direct RETURN/NEXT/FNx can enter a program that has "
               "compile errors" % [k for k, v in cl if not v])
+
+
+ABS_PC = {
+    ("cont", "cont_pc"): "CONT: the saved pc (dropped on recompile, C04.c)",
+    ("enter_direct", "link"): "start of the direct line's code",
+    ("execute", "Return"): "INPUT redo: back to the marker of the same INPUT statement",
+    ("execute_loop", "Jump"): "the gated Jump arm",
+    ("execute_loop", "IfNot"): "IfNot: a local label of the same statement",
+    ("fn", "functions"): "FNx: entry recorded by DEF (dropped on recompile, C04.c)",
+    ("next", "Next"): "NEXT: loop address from the stack (dropped on recompile, C04.c)",
+    ("return", "Return"): "RETURN: address from the stack (dropped on recompile, C04.c)",
+}
+
+
+def rule_abs_pc(ctx, cr):
+    got = {}
+    for p, f in sorted(cr.fns.items()):
+        for b, st, v in f.field_stores("pc"):
+            if st["place"]["proj"][-1].get("adt") != "mach::runtime::Runtime":
+                continue
+            d = f.describe_value(v) or ""
+            if re.match(r"^\(place:\(\*_1\)\.pc (Add|Sub)", d):
+                continue            # relative: pc +/- n
+            fn = p.rsplit("::", 1)[1]
+            kind = None
+            for k in ("cont_pc", "Program::link", "as Jump", "as IfNot", "functions", "as Next",
+                      "as Return"):
+                if k in d:
+                    kind = k.replace("Program::", "").replace("as ", "")
+                    break
+            got.setdefault((fn, kind or d[:60]), st["span"])
+    for key, sp in sorted(got.items(), key=str):
+        ctx.check(key in ABS_PC, "C19.a", "pc/absolute-writer/%s/%s" % key, sp,
+                  ABS_PC.get(key, ""),
+                  "Runtime::%s now loads pc with an address taken from %s: the only gate that "
+                  "keeps a direct statement out of a program with compile errors is in the Jump "
+                  "arm of the dispatch loop, so this transfer bypasses it" % key)
+    ctx.floor("C19.a", "absolute writers of pc", len(got), 8)
 
 
 def rule_b(ctx, cr):
